@@ -37,11 +37,11 @@ from vgi_rpc.rpc import AnnotatedBatch, RpcError
 PROPERTY = "C38"
 ENCODED = [rt._request_with_retry, rt._post_with_retry, rt._compute_delay, cl.HttpStreamSession.exchange, cl.HttpStreamSession.cancel]
 BOUNDS = (
-    "retry loop: max_retries 0..3, every fault script over {ConnectError, ReadTimeout, RemoteProtocolError(no response), "
+    "retry loop: max_retries 0..%d (quick 2, thorough 3), every fault script over {ConnectError, ReadTimeout, RemoteProtocolError(no response), "
     "RemoteProtocolError(other), any status 100..999 with Retry-After absent/any int} per attempt, both config flags, default "
     "retryable set plus one symbolic extra code; delay: all binary64 inputs (finite base,max >= 0), attempt 0..3; "
     "exchange/cancel: any status 100..999 for both answers, transport failure on either post"
-)
+) % pick(2, 3)
 OUTSIDE = (
     "float()/parsedate_to_datetime parsing of the Retry-After text (its result is the symbolic input of (b)); "
     "random.uniform is modelled by its documented range 0 <= u <= x (for base*2^a = +inf the CPython formula "
@@ -143,7 +143,7 @@ class _ScriptClient:
             raise HarnessModelError("more requests than scripted (bound exceeded)")
         kind, status, ra = self.script[i]
         if kind == K_STATUS:
-            r = _Resp(status, ra)
+            r = _Resp(status, None if ra < 0 else ra)  # Retry-After absent / any int (decided lazily)
             self.outcomes.append(r)
             return r
         e = _make_fault(kind)
@@ -151,6 +151,7 @@ class _ScriptClient:
         raise e
 
 
+_MAXR = pick(2, 3)
 _rwr = reglobalize(rt._request_with_retry, _compute_delay=_stub_compute_delay, _get_retry_after=_stub_get_retry_after)
 _pwr = reglobalize(rt._post_with_retry, _request_with_retry=_rwr)
 
@@ -214,19 +215,18 @@ def _replay_retry(args: dict) -> str | None:
 
 
 @cond(q=60, t=300, stubs=["_compute_delay := recording token stub", "_get_retry_after := scripted value"],
-      encoded=[rt._request_with_retry, rt._post_with_retry], bound="max_retries 0..3, scripts <= 4 attempts",
+      encoded=[rt._request_with_retry, rt._post_with_retry], bound="max_retries 0..%d, scripts <= %d attempts" % (_MAXR, _MAXR + 1),
       replay=_replay_retry, signature=lambda a, c: "C38:retry-loop:differs-from-table")
 def retry_loop_matches_table(max_retries: int, retry_conn: bool, respect_ra: bool, extra: int,
                              k0: int, s0: int, ra0: int, k1: int, s1: int, ra1: int,
                              k2: int, s2: int, ra2: int, k3: int, s3: int, ra3: int) -> bool:
     """
-    pre: 0 <= max_retries <= 3
+    pre: 0 <= max_retries <= _MAXR
     pre: 0 <= k0 <= 4 and 0 <= k1 <= 4 and 0 <= k2 <= 4 and 0 <= k3 <= 4
     pre: 100 <= s0 <= 999 and 100 <= s1 <= 999 and 100 <= s2 <= 999 and 100 <= s3 <= 999
     post: _
     """
-    script = [(k0, s0, None if ra0 < 0 else ra0), (k1, s1, None if ra1 < 0 else ra1),
-              (k2, s2, None if ra2 < 0 else ra2), (k3, s3, None if ra3 < 0 else ra3)]
+    script = [(k0, s0, ra0), (k1, s1, ra1), (k2, s2, ra2), (k3, s3, ra3)]
     codes = _Codes(extra)
     cfg = rt.HttpRetryConfig(max_retries=max_retries, backoff_base=1, backoff_max=8, retryable_status_codes=codes,  # type: ignore[arg-type]
                              retry_on_connection_error=retry_conn, respect_retry_after=respect_ra)
@@ -280,7 +280,7 @@ def no_config_means_single_post(k0: int, s0: int) -> bool:
     pre: 0 <= k0 <= 4 and 100 <= s0 <= 999
     post: _
     """
-    client = _ScriptClient([(k0, s0, None)])
+    client = _ScriptClient([(k0, s0, -1)])
     try:
         r = rt._post_with_retry(client, "http://h/m", content=b"req", headers={"A": "b"}, config=None)  # type: ignore[arg-type]
         ok = r is client.outcomes[0]
